@@ -30,12 +30,14 @@ def deep_equal(seq1: Iterable[Any],
 
     etree_node_types = (EtreeElementNode, CommentNode, ProcessingInstructionNode)
 
-    def etree_deep_equal(e1: ElementProtocol, e2: ElementProtocol) -> bool:
+    def etree_deep_equal(e1: ElementProtocol, e2: ElementProtocol, tail: bool = False) -> bool:
+        # The tail is the text node that follows the element in its parent: it belongs
+        # to the compared content only for the descendants of the two nodes.
         if cm.ne(e1.tag, e2.tag):
             return False
         elif cm.ne((e1.text or '').strip(), (e2.text or '').strip()):
             return False
-        elif cm.ne((e1.tail or '').strip(), (e2.tail or '').strip()):
+        elif tail and cm.ne((e1.tail or '').strip(), (e2.tail or '').strip()):
             return False
         elif len(e1) != len(e2) or len(e1.attrib) != len(e2.attrib):
             return False
@@ -50,7 +52,7 @@ def deep_equal(seq1: Iterable[Any],
 
         if items1 != items2:
             return False
-        return all(etree_deep_equal(c1, c2) for c1, c2 in zip(e1, e2))
+        return all(etree_deep_equal(c1, c2, True) for c1, c2 in zip(e1, e2))
 
     if collation is None:
         collation = UNICODE_CODEPOINT_COLLATION
